@@ -145,10 +145,10 @@ func init() {
 				src := &scriptedSource{draws: draws}
 				var res eval.GenExprResult
 				var pan interface{}
-				func() {
+				guarded(map[string]interface{}{"call": "GenerateRandomExpr", "level": level, "draws": fmt.Sprint(draws)}, func() {
 					defer func() { pan = recover() }()
 					res = eval.GenerateRandomExpr(level, rand.New(src), opts...)
-				}()
+				})
 				if pan != nil {
 					c.Direct = append(c.Direct, DirectViolation{What: fmt.Sprintf("GenerateRandomExpr panicked: %v", pan), Sig: "c20-panic", Sample: fmt.Sprint(level, enVar, enCond, enTry)})
 					continue
